@@ -507,7 +507,8 @@ func (c *normCtx) tryExtract(value ast.Value, expected Input) (ast.Value, bool) 
 func literalToInput(value ast.Value) interface{} {
 	switch v := value.(type) {
 	case *ast.IntValue:
-		if n, err := strconv.Atoi(v.Value); err == nil {
+		// only when the number spells back to the same text: `-0` must stay "-0" for an ID argument
+		if n, err := strconv.Atoi(v.Value); err == nil && strconv.Itoa(n) == v.Value {
 			return n
 		}
 		return v.Value
